@@ -158,45 +158,3 @@ func vH_FP_glue(data []byte) {
 	}
 }
 
-// ---- C04 tier 5: the multi-precision fallback on its own ------------------------
-func vH_FP_slow(data []byte) {
-	var d decimal
-	if !d.set(data) {
-		return
-	}
-	vReach("C04.slow-set")
-	b, ovf := d.floatBits()
-	vReach("C04.slow-returned")
-	vAssert(ovf == vGlueOverflows(data), "C04.slow-overflow-flag")
-	if !ovf {
-		vAssertGlueValue(data, b, "C04.slow-value")
-	}
-}
-
-// ---- C04 tier 5a: the decimal shift units on their own ------------------------------
-// A normalised decimal with nd symbolic digits (first and last digit non-zero) and concrete
-// decimal point is shifted by a concrete k; the result must denote value*2^(+-k) exactly, be
-// normalised again, and must not claim truncation.
-func vMakeDecimal(a *decimal, nd int, dp int) {
-	for i := 0; i < nd; i++ {
-		c := vNondetByte("digit")
-		vAssume(c >= '0' && c <= '9')
-		a.d[i] = c
-	}
-	vAssume(a.d[0] != '0' && a.d[nd-1] != '0')
-	a.nd = nd
-	a.dp = dp
-}
-
-func vH_FP_shift(nd int, dp int, k int, left bool) {
-	var a, before decimal
-	vMakeDecimal(&a, nd, dp)
-	before = a
-	if left {
-		leftShift(&a, uint(k))
-	} else {
-		rightShift(&a, uint(k))
-	}
-	vReach("C04.shift-done")
-	vAssertShift(&before, &a, k, left, "C04.shift-exact")
-}
